@@ -18,8 +18,9 @@ var (
 )
 
 func removeFromWorkingTree(path string) error {
-	// a path that cannot be reached (e.g. a parent directory was replaced by a file) has nothing to remove
-	if _, err := os.Stat(path); err == nil {
+	// a path that cannot be reached (e.g. a parent directory was replaced by a file) has nothing to remove,
+	// and a directory that took the place of the tracked file is not the tracked file
+	if info, err := os.Stat(path); err == nil && !info.IsDir() {
 		if err := os.Remove(path); err != nil {
 			return fmt.Errorf("fail to delete %s from the working tree: %w", path, err)
 		}
